@@ -31,11 +31,11 @@ pub mod logger_handle {
     //@   ens[LogfileSelector::none.post] r.sv() == (SelV { plain: false, rcur: false, comp: false, custom: None })
     //@ sig src/logger_handle.rs impl LogfileSelector / fn with_r_current
     //@   ret r
-    //@   rule R10 1
+    //@   rule R10 *
     //@   ens r.sv() == (SelV { rcur: true, ..self.sv() })
     //@ sig src/logger_handle.rs impl LogfileSelector / fn with_compressed_files
     //@   ret r
-    //@   rule R10 1
+    //@   rule R10 *
     //@   ens r.sv() == (SelV { comp: true, ..self.sv() })
     }
     /// bridge (proved here, where `sv` is visible): the view in terms of the crate-visible fields
